@@ -17,7 +17,7 @@ ID = "C20"
 LEVEL = "fault_enumeration"
 CHUNK = 96
 DET_SAMPLE = 3          # plans re-executed in the parent for the determinism spot check (each is a batch of 96 cases)
-A_EVENTS = {"get": 400_000, "bulkget": 400_000, "walk": 1_200_000, "bulkwalk": 1_200_000, "trap": 250_000}
+A_EVENTS = {"multigetnext": 400_000, "get": 400_000, "bulkget": 400_000, "walk": 1_200_000, "bulkwalk": 1_200_000, "trap": 250_000}
 B_EVENTS = 200            # counted events per datagram octet
 C_BYTES = 16 << 20        # traced-memory allowance per exchange
 D_BYTES = 64              # traced bytes per datagram octet
@@ -66,6 +66,8 @@ MIB = {(1, 3, 6, 1, 2, 1, 1, 1, 0): ("str", b"descr" * 4), (1, 3, 6, 1, 2, 1, 1,
 GET = {"op": "get", "oid": (1, 3, 6, 1, 2, 1, 1, 1, 0)}
 BULK = {"op": "bulkget", "scalars": [(1, 3, 6, 1, 2, 1, 1, 1)], "repeaters": [(1, 3, 6, 1, 2, 1, 1, 2)], "maxrep": 3}
 WALK = {"op": "walk", "root": (1, 3, 6, 1, 2, 1, 1)}
+#: a request for 400 OIDs answered by 400 bindings (about 14 kB): work must stay linear in the size of the answer
+WIDE = {"op": "multigetnext", "oids": [(1, 3, 6, 1, 2, 1, 1, 0, j) for j in range(1, 401)]}
 BULKWALK = {"op": "bulkwalk", "roots": [(1, 3, 6, 1, 2, 1, 1), (1, 3, 6, 1, 2, 1, 2)], "bulk": 2}
 V2C = {"version": "v2c", "community": "public"}
 V1 = {"version": "v1", "community": "public"}
@@ -86,6 +88,7 @@ SCENARIOS: Dict[str, tuple] = {
     # broken, not one damaged datagram): the operation must still end
     "v2c-bulkwalk-rest": (V2C, V2C, BULKWALK, 1, "pre", "sticky"),
     "v2c-walk-rest": (V2C, V2C, WALK, 1, "pre", "sticky"),
+    "v2c-getnext-400": (V2C, V2C, WIDE, 0, "pre", "wide"),
     "v3-noauth-disco": (V3N, V3N, GET, 0, "pre", None),
     "v3-noauth-get": (V3N, V3N, GET, 1, "pre", None),
     "v3-auth-get": (V3A, V3A, GET, 1, "pre", None),
@@ -343,6 +346,8 @@ class Env:
         est_len = len(apply_mutation(b"\x00" * 200, m)) if m[0] in ("raw", "rand", "nest") else 300
         if m[0] == "big":
             est_len = 200 + (m[2] if m[1] == 1 else 8 * m[2])
+        if self.special == "wide":
+            est_len = 14000
         budget = A_EVENTS[self.op["op"]] + B_EVENTS * est_len
         status, val, events, peak = self.metered(scen.do_op(client, self.op), budget)
         w.net.rewriter = None
@@ -513,6 +518,8 @@ def _segments(tier: str) -> List[Tuple[str, str, int]]:
     segs: List[Tuple[str, str, int]] = []
     names = QUICK_SCENARIOS if tier == "quick" else list(SCENARIOS)
     for name in names:
+        if SCENARIOS[name][5] == "wide":
+            continue
         base = baseline(name)
         raw = base["orig"] or b""
         n, h = len(raw), len(header_positions(raw))
@@ -530,6 +537,7 @@ def _segments(tier: str) -> List[Tuple[str, str, int]]:
             segs.append((name, "secint", 12 if tier == "quick" else 36))
     for name in LEAK_SCENARIOS:
         segs.append((name, "leak", 1))
+    segs.append(("v2c-getnext-400", "wide", 48))
     return segs
 
 
@@ -588,6 +596,11 @@ def plan_for(tier: str, seed: int, i: int) -> dict:
         elif fam == "secint":
             sizes = [5, 8, 11, 16, 4, 9, 33, 64, 127, 126, 3, 200]
             muts.append(["secint", j % 3, sizes[(j // 3) % len(sizes)]])
+        elif fam == "wide":
+            # the unmutated 14 kB answer, 24 seeded single-bit flips and 23 truncations of it
+            r = rng_for(seed, ID, tier + ":wide", j)
+            n = len(base["orig"] or b"x")
+            muts.append(["none"] if j == 0 else ["flip", r.randrange(8 * n)] if j % 2 else ["trunc", r.randrange(n)])
         elif fam == "leak":
             muts.append(["leak", LEAK_WARM, LEAK_POLLS, rng_for(seed, ID, tier + ":" + name + ":leak", j).getrandbits(40)])
         elif fam == "tiny":
